@@ -71,6 +71,8 @@ def prefer(r):
         if r.step.u is not None and r.ndraws:
             j = z3.Int('pref_uk')
             prefs.append(r.step.u * 16 == z3.ToReal(j))
+    for s_ in range(1, w.n):
+        prefs.append(sx.znum(w.T[s_][0]) == 1)       # public subnets: compromised hosts are reachable from reset
     t = r.A.target if getattr(r, 'A', None) is not None else None
     st = getattr(r, 'st', None)
     if st is not None:
